@@ -28,13 +28,15 @@ AREA = "Sql3VL"
 # primary statements = about the current code (KeepIsNotTrue since /repo 33a2304) or about both variants; the last
 # five are about the previous variant (KeepNotPred) and stay as the record of the fixed finding
 THEOREMS = [("Arc.Sql3VL.Props", t) for t in (
-    "C10_exact", "C10_same_count", "C10_count", "C10_dry_run", "C10_rejected_unchanged", "C10_partial_reported", "C10_safe",
+    "C10_exact", "C10_same_count", "C10_count", "C10_dry_run", "C10_rejected_unchanged", "C10_partial_reported", "C10_safe", "C10_any_search", "C10_ideal_search",
+    "C10_search_unfaithful_refuted", "C10_search_unfaithful_count_refuted",
     "C10_not_keeps_only_false", "C10_exact_refuted", "C10_same_count_refuted", "C10_exact_guarded", "C10_same_count_guarded")]
 MODULES = ["Arc.Sql3VL.Props"]
 TIE_NAME = "C10 correspondence (api.DeleteHandler.handleDelete + DuckDB vs Arc.Sql3VL.Model.delete_run / eval)"
 HARNESS = {"internal/api/zz_delete_verif_test.go": "harness/sql3vl/delete_verif_test.go"}
 TAGS = "verif duckdb_arrow"
 SIGNATURE = "null-verdict-row-in-affected-file"
+SIG_SEARCH = "union-read-where-differs-from-single-file-read"
 
 # ---------------------------------------------------------------------------------------------
 # schema and values.  A value is None or ("n", quarter_units) / ("s", str) / ("b", bool) / ("t", micros).
@@ -404,22 +406,36 @@ Definition mk_ds (tab : list row) (l : list (N * list nat)) : dataset := map (fu
 Definition mk_resp (x : Z * bool * Z * Z * Z * Z) : response :=
   let '(a, b, c, d, e, f) := x in {| rs_status := a; rs_success := b; rs_deleted := c; rs_affected := d; rs_rewritten := e; rs_failed := f |}.
 Definition raw_case : Type :=
-  list row * (variant * (Z * Z) * (wclass * bool * pred * bool) * list (N * list nat) * list (list tri) *
+  list row * (variant * (Z * Z) * (wclass * bool * pred * bool) * list (N * list nat) * (list (list tri) * list (list bool)) *
               (Z * bool * Z * Z * Z * Z) * list (N * list nat) * (Z * bool * Z * Z * Z * Z) * list (N * list nat) * bool).
 Definition mk_case (r : raw_case) : ccase :=
-  let '(tab, (v, (th, mx), (cl, full, p, conf), ds, duck, dresp, dds, rresp, after, sib)) := r in
+  let '(tab, (v, (th, mx), (cl, full, p, conf), ds, (duck, srch), dresp, dds, rresp, after, sib)) := r in
   {| c_variant := v; c_cfg := {| cf_threshold := th; cf_max_rows := mx |};
      c_req := {| rq_class := cl; rq_full := full; rq_pred := p; rq_dry := false; rq_confirm := conf |};
-     c_ds := mk_ds tab ds; c_duck := duck; c_dry_resp := mk_resp dresp; c_dry_ds := mk_ds tab dds;
+     c_ds := mk_ds tab ds; c_duck := duck; c_search := srch; c_dry_resp := mk_resp dresp; c_dry_ds := mk_ds tab dds;
      c_resp := mk_resp rresp; c_after := mk_ds tab after; c_sibling_ok := sib |}.
-Definition flags (r : raw_case) : bool * bool * bool * bool * bool * bool :=
+Definition flags (r : raw_case) : bool * bool * bool * bool * bool * bool * bool :=
   let c := mk_case r in
-  (case_agrees c, eval_agrees c, oracle_dry_unchanged c, oracle_exact c, oracle_count c, oracle_same_count c).
+  (case_agrees c, eval_agrees c, oracle_dry_unchanged c, oracle_exact c, oracle_count c, oracle_same_count c, search_is_faithful c).
 """
-LABELS = ("agree", "eval", "o_dry", "o_exact", "o_count", "o_same")
+LABELS = ("agree", "eval", "o_dry", "o_exact", "o_count", "o_same", "faithful")
 
 
-def case_to_coq(c, variant):
+SEARCH_WITNESS = "zz_union_read_pushdown_rounding_eq.json"
+
+
+def detect_search(out):
+    """which affected-file search does the source implement?  The witness (x BIGINT = 1 in one file, DOUBLE in the
+    other, where x = 1.25) is announced as 1 row by a search that inherits DuckDB's rounded pushed-down comparison
+    ("union-where": the model then runs with the union read's observed WHERE verdicts) and as 0 rows by a search
+    that judges rows as the single-file reads do ("ideal": the model runs with the ideal search)."""
+    for c in out:
+        if c.get("corpus") == SEARCH_WITNESS:
+            return "union-where" if c["obs"]["dry"]["deleted"] == 1 else "ideal"
+    return "union-where"
+
+
+def case_to_coq(c, variant, svariant="union-where"):
     o = c["obs"]
     tab, idx = [], {}
 
@@ -456,6 +472,13 @@ def case_to_coq(c, variant):
         duck = clist([clist([v if v in ("T", "F", "U") else "U" for v in o["verdicts"].get(f["path"], [])]) for f in c["files"]])
     else:
         duck = "[]"
+    if c["class"] == "WValid" and svariant == "ideal" and not o["verdict_err"]:
+        srch = clist([clist([cbool(v == "T") for v in o["verdicts"].get(f["path"], [])]) for f in c["files"]])
+    elif c["class"] == "WValid" and not o.get("search_err"):
+        srch = clist([clist([cbool(r[0][1] // 4 in set(o["search"].get(f["path"], []))) for r in f["rows"]]) for f in c["files"]])
+    else:
+        srch = "[]"
+    duck = "(%s, %s)" % (duck, srch)
 
     def cresp(r):
         return "(%s, %s, %s, %s, %s, %s)" % (cz(r["status"]), cbool(r["success"]), cz(r["deleted"]), cz(r["affected"]), cz(r["rewritten"]), cz(r["failed"]))
@@ -467,11 +490,11 @@ def case_to_coq(c, variant):
     return "(%s, %s)" % (clist([clist([cvalue(v) for v in r]) for r in tab]), body)
 
 
-def eval_cases(out, variant, name, chunk=400):
+def eval_cases(out, variant, name, chunk=400, svariant="union-where"):
     res = {k: [] for k in LABELS}
     for off in range(0, len(out), chunk):
         part = out[off:off + chunk]
-        src = HEADER + "Definition verif_cases : list raw_case := [\n" + ";\n".join(case_to_coq(c, variant) for c in part) + "].\n"
+        src = HEADER + "Definition verif_cases : list raw_case := [\n" + ";\n".join(case_to_coq(c, variant, svariant) for c in part) + "].\n"
         src += "Definition verif_flags := Eval vm_compute in map flags verif_cases.\nPrint verif_flags.\n"
         rc, o = vlib.coq_eval("C10", "%s_%d" % (name, off), src)
         m = re.search(r"verif_flags\s*=\s*(.*?)\s*:\s*list", o, re.S)
@@ -497,6 +520,22 @@ QUERYERR = ["nosuchcol = 1", "a = 1 +", "a = 'zz'", "(a = 1) AND (nosuch IS NULL
 FULL = ["1=1", "TRUE", "true", " 1=1 ", "  True"]
 
 
+def absent_everywhere(c):
+    """columns the predicate names that NO file of the measurement has: the union read does not bind either,
+    DuckDB refuses every count query (class WQueryError) - unless there is no parquet file at all"""
+    if not c["files"]:
+        return set()
+    everywhere = set.intersection(*[set(file_schema(f)["missing"]) for f in c["files"]])
+    return referenced_cols(c["pred"]) & everywhere
+
+
+def classify(c):
+    """class / full flag of a grammar predicate against this dataset"""
+    c["full"] = is_full_text(c["where"])
+    c["class"] = "WQueryError" if absent_everywhere(c) else "WValid"
+    return c
+
+
 def is_full_text(where):
     """validateWhereClause's full-table forms (the text, trimmed and upper-cased, is 1=1 / TRUE / 1)"""
     w = where.strip().upper()
@@ -520,7 +559,7 @@ def gen_case(rng, cid):
     else:
         p = gen_pred(rng, rng.choice([1, 2, 2, 2, 3]), top=True)
         c.update({"where": sql_pred(p), "pred": p, "kind": "pred"})
-        c["full"] = is_full_text(c["where"])            # a predicate that prints as exactly TRUE is a "full table delete"
+        classify(c)       # exactly TRUE = "full table delete"; a column no file has = DuckDB refuses the query
     g = rng.random()
     if g < 0.10:
         c["max_rows"] = rng.choice([0, 1, 2, 3])
@@ -603,6 +642,10 @@ def nontrivial(c):
     return any(r[i] is None for f in c["files"] for r in f["rows"] for i in cols)
 
 
+def reclass(c):
+    return classify(c) if c.get("kind") == "pred" else c
+
+
 def shrink_case(c, fails, budget=30):
     cur, steps, changed = c, 0, True
     while changed and steps < budget:
@@ -610,7 +653,7 @@ def shrink_case(c, fails, budget=30):
         cands = []
         for i in range(len(cur["files"])):
             if len(cur["files"]) > 1:
-                cands.append(dict(cur, files=cur["files"][:i] + cur["files"][i + 1:]))
+                cands.append(reclass(dict(cur, files=cur["files"][:i] + cur["files"][i + 1:])))
             for j in range(len(cur["files"][i]["rows"])):
                 fs = [dict(f) for f in cur["files"]]
                 fs[i]["rows"] = fs[i]["rows"][:j] + fs[i]["rows"][j + 1:]
@@ -618,7 +661,7 @@ def shrink_case(c, fails, budget=30):
         p = cur["pred"]
         if cur["class"] == "WValid" and not cur["full"] and p[0] in ("not", "and", "or", "isnottrue", "istrue"):
             for sub in p[1:]:
-                cands.append(dict(cur, pred=sub, where=sql_pred(sub), full=is_full_text(sql_pred(sub))))
+                cands.append(reclass(dict(cur, pred=sub, where=sql_pred(sub))))
         for d in cands:
             steps += 1
             if steps > budget:
@@ -666,7 +709,10 @@ def run(res, tier, seed):
     res.cov["rewrite_variant"] = {"KeepNotPred": "as-is: WHERE NOT (p)", "KeepIsNotTrue": "repaired: WHERE (p) IS NOT TRUE"}[variant]
 
     t2 = time.time()
-    r = eval_cases(out, variant, "Cases_%s" % tier)
+    svariant = detect_search(out)
+    res.cov["search_variant"] = {"union-where": "as-is: one union_by_name read ... WHERE <p> (inherits DuckDB's pushed-down comparison on each file's own type)",
+                                 "ideal": "judges rows as the single-file reads do"}[svariant]
+    r = eval_cases(out, variant, "Cases_%s" % tier, svariant=svariant)
     res.stage("coq_eval", t2)
     dis = r["agree"]
 
@@ -717,8 +763,28 @@ def run(res, tier, seed):
         reported = True
     known = [k for k in vlib.known_for("C10") if k.get("signature") == SIGNATURE]
     pure_dis = [i for i in dis if i not in r["eval"]]
-    kf = [i for i in r["oracle"] if i not in dis and has_signature(out[i]) and not r["o_dry"].count(i) and not r["o_count"].count(i)]
-    other = [i for i in r["oracle"] if i not in kf]
+    kf = [i for i in r["oracle"] if i not in dis and has_signature(out[i]) and i not in r["faithful"] and not r["o_dry"].count(i) and not r["o_count"].count(i)]
+    # the union read did not judge the rows as the single-file reads do (hypothesis search_faithful is false on
+    # DuckDB's own answers), the model run with the OBSERVED search verdicts predicts the implementation exactly,
+    # and the property fails: the finding about the affected-file search
+    unfaithful = set(r["faithful"])
+    known_s = [k for k in vlib.known_for("C10") if k.get("signature") == SIG_SEARCH]
+    ks = [i for i in r["oracle"] if i not in dis and i in unfaithful and i not in r["o_dry"] and i not in r["o_count"]]
+    res.cov["search_hypothesis"] = {"cases_checked": len(valid), "union_read_differs_from_single_file_reads": len(unfaithful),
+                                    "of_which_property_fails": len(ks)}
+    other = [i for i in r["oracle"] if i not in kf and i not in ks]
+    if ks:
+        if known_s and svariant == "union-where":
+            res.known_finding("%s: for a field that is BIGINT in one file and DOUBLE in another, DuckDB's union_by_name read evaluates a pushed-down "
+                              "comparison with a fractional constant on the BIGINT file with the constant rounded, so the affected-file search misses files "
+                              "(selected rows survive a successful delete) or over-counts (dry-run count != deleted count) - %d of %d generated cases, each "
+                              "exactly as Arc.Sql3VL.Model.delete_run_s with the observed search verdicts predicts; witness corpus/C10/zz_union_read_pushdown_rounding.json"
+                              % (SIG_SEARCH, len(ks), len(out)))
+            res.cov["known_finding_cases_search"] = len(ks)
+        else:
+            res.violation("the affected-file search (union read) judged rows differently from the per-file rewrite and the property failed",
+                          {"kind": "oracle", "oracle": [k for k in ("o_exact", "o_same") if ks[0] in r[k]], "case": jsonable(out[ks[0]])}, suffix="oracle")
+            reported = True
     if kf:
         if known and variant == "KeepNotPred":
             res.known_finding("%s: the rewrite keeps WHERE NOT (p), so rows where p is NULL in a file that also has a matching row are deleted too, "
@@ -742,10 +808,10 @@ def run(res, tier, seed):
 
         def still(cand):
             o = run_impl([cand], "shrink")
-            return bool(eval_cases(o, variant, "Shrink")["agree"])
+            return bool(eval_cases(o, variant, "Shrink", svariant=svariant)["agree"])
         small = shrink_case(c, still) if len(pure_dis) < 60 else c
         small_out = run_impl([{k: v for k, v in small.items() if k != "obs"}], "shrink")
-        rr = eval_cases(small_out, variant, "Shrink")
+        rr = eval_cases(small_out, variant, "Shrink", svariant=svariant)
         res.violation("model and implementation disagree on a delete request",
                       {"kind": "correspondence", "correspondence": TIE_NAME, "case": jsonable(small_out[0]), "disagreeing_cases": len(pure_dis),
                        "rewrite_variant": res.cov["rewrite_variant"], "oracle_fails_on_impl": bool(rr["oracle"])},
@@ -763,9 +829,11 @@ def replay(res, path):
     for f in c["files"]:
         f["rows"] = [[None if v is None else tuple(v) for v in r] for r in f["rows"]]
     wit = witness_cases()
-    variant = detect_variant(run_impl([wit[0]], "replayw")[0]) if wit else "KeepNotPred"
+    wout = run_impl(wit, "replayw") if wit else []
+    variant = detect_variant(wout[0]) if wit else "KeepNotPred"
+    svariant = detect_search(wout)
     out = run_impl([c], "replay")
-    r = eval_cases(out, variant, "Replay")
+    r = eval_cases(out, variant, "Replay", svariant=svariant)
     o = out[0]["obs"]
     print("where:", c["where"], "| dry:", o["dry"], "| real:", o["real"], "| verdicts:", o["verdicts"],
           "| after ids:", [[row[0] for row in (f["rows"] or [])] for f in o["after"]],
